@@ -8,7 +8,7 @@
    socket that was still registered); `progress_reports j`, `uploads j d` select from them
    by the job id / dataset id *carried by the report*. *)
 From Coq Require Import List NArith ZArith String Bool.
-From EKW Require Import Gateway.Router Gateway.RouterProofs.
+From EKW Require Import Gateway.Router Gateway.RouterProofs Gateway.IdSource Gateway.IdSourceProofs.
 From EKW Require Gateway.RouterCheck.   (* not used here: keeps the correspondence checker's .vo in step with the model *)
 Import ListNotations.
 Open Scope string_scope.
@@ -65,6 +65,37 @@ Theorem C18_submitted_id_is_fresh : forall pre opre st cands ok st' id err,
   handle_fe st (SubmitJobRequest cands ok) = (st', SubmitJobResponse (Some id) err) ->
   jlookup id st = None /\ jlookup id st' <> None /\ ~ In id (submitted opre) /\ In id cands.
 Proof. exact submit_response_fresh. Qed.
+
+(* (3') Round 5.  What uuid4 yields is a DRAW (a 128-bit value); the id is a rendering of it
+   (str(u), u.hex, a prefix ...).  `run_p ch` is the serve loop with the way spawn_job obtains
+   the id as a parameter.  Ids are never reused for EVERY policy that hands out the value it
+   tested against the table (`sound`) ... *)
+Theorem C18_ids_never_reused_any_policy : forall ch, sound ch -> forall evs outs fin,
+  run_p ch [] evs = (outs, fin) -> NoDup (submitted outs).
+Proof. intros ch Hs evs outs fin H. exact (proj1 (run_p_submitted ch Hs evs [] outs fin H)). Qed.
+
+(* ... in particular for the code as it is (the generator passed to next_uuid renders), with
+   ANY rendering, injective or not, and whatever the id source yields ... *)
+Theorem C18_ids_never_reused_any_rendering : forall render evs outs fin,
+  run_p (choose_rendered render) [] evs = (outs, fin) -> NoDup (submitted outs).
+Proof. exact ids_never_reused_any_rendering. Qed.
+
+(* ... which is Router.run on the rendered history: every theorem above applies to it, and
+   it is what the correspondence checker (RouterCheck.check_case_r) evaluates ... *)
+Theorem C18_rendered_run_is_run : forall render evs st,
+  run_p (choose_rendered render) st evs = run st (map (render_event render) evs).
+Proof. exact run_p_rendered. Qed.
+
+(* ... and it FAILS for the policy "test the full value, shorten the value next_uuid returned":
+   one repeated draw gives the same id twice, the first job's progress and result are gone. *)
+Theorem C18_id_rendered_after_the_test_refuted :
+  exists evs outs st,
+    run_p (choose_post (fun d => d) trunc48) [] evs = (outs, Ok st) /\
+    ~ NoDup (submitted outs) /\
+    nth_error outs 2 = Some (Resp (JobProgressResponse [(5%N, "40.00")] None)) /\
+    nth_error outs 4 = Some (Resp (JobProgressResponse [(5%N, "0.00")] None)) /\
+    nth_error outs 5 = Some (Resp (ResultRetrievalResponse None (Some "KeyError"))).
+Proof. exact test_then_truncate_refuted. Qed.
 
 (* (4) A request naming an unknown job or dataset gets an error response, the state is
    untouched ... *)
@@ -151,6 +182,29 @@ Example C18_ids_never_reused_nonvacuous :
   exists opre fin, ex_run = (opre, fin) /\ submitted opre = [1%N; 2%N].
 Proof. eexists _, _. split; vm_compute; reflexivity. Qed.
 
+Example C18_ids_never_reused_any_policy_nonvacuous :
+  sound (choose_rendered trunc48) /\ sound (choose_post trunc48 (fun c => c)) /\
+  exists outs st, run_p (choose_rendered trunc48) [] ex_reuse = (outs, Ok st) /\ submitted outs = [5%N].
+Proof.
+  split; [exact (rendered_sound trunc48)|]. split; [exact (post_id_sound trunc48)|].
+  eexists _, _. split; vm_compute; reflexivity.
+Qed.
+
+(* a non-injective rendering, a source that repeats itself and yields look-alikes *)
+Example C18_ids_never_reused_any_rendering_nonvacuous :
+  exists outs st,
+    run_p (choose_rendered trunc48) []
+      [Fe (SubmitJobRequest [ex_draw_a] true); Fe (SubmitJobRequest [ex_draw_a; ex_draw_b; 6%N] true);
+       Fe (SubmitJobRequest [ex_draw_b; 6%N] true)] = (outs, Ok st) /\
+    submitted outs = [5%N; 6%N] /\ trunc48 ex_draw_a = trunc48 ex_draw_b /\ ex_draw_a <> ex_draw_b.
+Proof. eexists _, _. repeat split; try (vm_compute; reflexivity). vm_compute. discriminate. Qed.
+
+Example C18_rendered_run_is_run_nonvacuous :
+  map (render_event (render_of [(70%N, 1%N); (71%N, 2%N)]))
+      [Fe (SubmitJobRequest [70%N; 70%N; 71%N] true); Ctl 1%N (mkReport 1%N None 0 [])]
+  = [Fe (SubmitJobRequest [1%N; 1%N; 2%N] true); Ctl 1%N (mkReport 1%N None 0 [])].
+Proof. reflexivity. Qed.
+
 Example C18_submitted_id_is_fresh_nonvacuous :
   exists st', handle_fe [(1%N, new_job)] (SubmitJobRequest [1%N; 1%N; 2%N] true) = (st', SubmitJobResponse (Some 2%N) None).
 Proof. eexists. vm_compute. reflexivity. Qed.
@@ -186,6 +240,10 @@ Print Assumptions C18_socket_read_until_shutdown.
 Print Assumptions C18_results_exact.
 Print Assumptions C18_ids_never_reused.
 Print Assumptions C18_submitted_id_is_fresh.
+Print Assumptions C18_ids_never_reused_any_policy.
+Print Assumptions C18_ids_never_reused_any_rendering.
+Print Assumptions C18_rendered_run_is_run.
+Print Assumptions C18_id_rendered_after_the_test_refuted.
 Print Assumptions C18_unknown_is_local_error.
 Print Assumptions C18_known_jobs_answered.
 Print Assumptions C18_query_is_local.
